@@ -36,7 +36,7 @@ def accepts(payload: bytes):
         for fn in INDIVIDUAL:
             try:
                 d = fn(payload)
-                r.append(d if isinstance(d, dict) else None)
+                r.append(dict(d) if isinstance(d, dict) else None)
             except Exception:  # noqa: BLE001 - a decoder that raises does not accept
                 r.append(None)
         if len(_accept_cache) > 20000:
@@ -105,6 +105,8 @@ def run_history(payloads, via=None, bystander=None):
             stats["switch"] += 1
         remembered = idx
         stats["some"] += 1
+        C.scribble(res)  # the caller modifies what it was given; later results must not be affected
+        C.scribble(tres)
     return stats
 
 
@@ -182,8 +184,15 @@ def history_st(draw):
     n = draw(st.integers(1, 30))
     items = []
     for _ in range(n):
-        kind = draw(st.sampled_from(["pool", "pool", "pool", "junk", "mut", "random"]))
-        if kind == "pool":
+        kind = draw(st.sampled_from(["pool", "pool", "pool", "junk", "mut", "random", "repeat", "junk-run"]))
+        if kind == "repeat" and items:
+            items.append(items[-1])  # the byte-identical payload again
+        elif kind == "junk-run" and len(items) < 25:
+            # a long unbroken run of payloads nobody accepts (e.g. a noisy line): 40..300 of them
+            run = draw(st.sampled_from([40, 61, 100, 300]))
+            junk = draw(st.sampled_from(sorted(JUNK)))
+            items.extend([(junk, JUNK[junk])] * run)
+        elif kind == "pool" or kind in ("repeat", "junk-run"):
             nm = draw(st.sampled_from(NAMES))
             items.append((nm, ALL[nm]))
         elif kind == "junk":
@@ -194,7 +203,7 @@ def history_st(draw):
             items.append(("mut/" + nm, c15._mutate(ALL[nm], draw(st.lists(c15._op, min_size=1, max_size=3)))))
         else:
             items.append(("junk/random", draw(st.binary(max_size=40))))
-    via = [draw(st.sampled_from([None, None, "dlms", "hdlc", "hdlc-badfcs", "hdlc-seg"])) for _ in range(n)]
+    via = [draw(st.sampled_from([None, None, "dlms", "hdlc", "hdlc-badfcs", "hdlc-seg"])) for _ in range(min(len(items), 40))] + [None] * max(0, len(items) - 40)
     bystander = [ALL[nm] for nm in draw(st.lists(st.sampled_from(NAMES + sorted(JUNK)), min_size=1, max_size=4))] if draw(st.booleans()) else None
     return ([i[0] for i in items], [i[1] for i in items], via, bystander)
 
@@ -291,7 +300,7 @@ def build() -> Check:
             "payloads from the full pool (41 genuine messages), junk, 1..3-op mutants of genuine messages and random bytes, each step "
             "through decode_message_payload or decode_message(DlmsMessage / reader-produced HdlcFrame, valid or with a flipped FCS bit; payloads "
             "shorter than 5 octets make invalid DlmsMessages) with a twin AutoDecoder fed the bare "
-            "payload; in half of the histories a second, unrelated AutoDecoder decodes other pool messages between the steps (instances must "
+            "payload, including byte-identical repeats and unbroken runs of 40..300 payloads nobody accepts; in half of the histories a second, unrelated AutoDecoder decodes other pool messages between the steps (instances must "
             "be independent). Reference model: the seven individual decoder functions are called directly (cached) - accepts = returns a dict; model "
             "state = index of the decoder that produced the latest non-None result; invariant after every step (None iff nobody accepts; "
             "result is an accepting decoder's result, the remembered one's when it accepts; previous_success_decoder names the producer and "
@@ -303,6 +312,7 @@ def build() -> Check:
         assumptions=[
             "The model calls han's individual decoder functions; C12 is about the selection logic, the decoders' values are C07-C09/C11's subject (re-checked in the genuine clause with the harness's expected dictionaries).",
             "A decoder that raises any exception counts as not accepting.",
+            "After every step the harness modifies the dictionary it was given (results must not be shared with later calls); the accept-cache stores its own copies.",
             "Histories are drawn as one list value (equivalent to a rule-based state machine with a single 'feed payload' rule; it shrinks and replays as one JSON value).",
         ],
         clauses=[
